@@ -278,6 +278,7 @@ class Trace:
         self.relist_risk = {k: False for k in range(self.nk)}
         self.burst = False
         self.pays = 0
+        self.partial = False
         self.flags = set()
 
     def steps(self):
@@ -285,7 +286,14 @@ class Trace:
         for i, (op, st) in enumerate(zip(self.c["ops"], self.o["steps"])):
             post = st["dump"]
             if post is None:
-                raise ValueError("oracle needs fully dumped histories")
+                # bulk step without a dump: only op-level facts are tracked, state-based judgements are
+                # suspended for this history (self.partial)
+                self.partial = True
+                if op["op"] in ("put", "put_local"):
+                    self.hist[op["k"]].add(op["v"])
+                if op["op"] == "pay":
+                    self.pays += 1
+                continue
             self.account(op, st["out"], pre, post)
             yield i, op, st["out"], pre, post
             pre = post
@@ -357,6 +365,7 @@ class Trace:
         if code == NF:
             self.flags.add("failed-write")
             self.removed(k, pre)
+            self.unacked[k] = max(0, self.unacked[k] - 1)
         else:
             self.unacked[k] = max(0, self.unacked[k] - 1)
 
@@ -396,7 +405,7 @@ def oracle(c, o):
             v.append(("get-foreign-value", "step %d: get(key %d) returned a value never handed in for it" % (i, op["k"])))
         if post["idx"] != post["idx2"] or [a for a, _ in post["idx"]] != [k for k, b in enumerate(post["contains"]) if b]:
             v.append(("listing-views-differ", "step %d: record_addresses / record_addresses_ref / contains disagree" % i))
-        if settled(post) and not crashed:
+        if settled(post) and not crashed and not t.partial:
             listed = {a for a, _ in post["idx"]}
             for k in range(t.nk):
                 l = t.last[k]
